@@ -462,12 +462,16 @@ def _annotate_ast_startpos(
             isinstance(aast_node, (ast.FunctionDef, ast.ClassDef, AsyncFunctionDef))
             and aast_node.decorator_list
         ):
-            delta = (
-                aast_node.decorator_list[0].lineno - 1,
-                # The col_offset doesn't include the @
-                _char_col_offset(text, aast_node.decorator_list[0].lineno,
-                                 aast_node.decorator_list[0].col_offset) - 1,
-            )
+            # The position of the first decorator doesn't include the "@",
+            # which need not be adjacent to it ("@ foo", "@(foo)", "@\\\nfoo").
+            # The "@" is the first thing on its line; look for that line.
+            lines = text.lines
+            deco_lineno = aast_node.decorator_list[0].lineno
+            while (deco_lineno > 1 and
+                   not lines[deco_lineno-1].lstrip().startswith("@")):
+                deco_lineno -= 1
+            deco_line = lines[deco_lineno-1]
+            delta = (deco_lineno - 1, len(deco_line) - len(deco_line.lstrip()))
         else:
             delta = (aast_node.lineno - 1,
                      _char_col_offset(text, aast_node.lineno,
